@@ -315,6 +315,26 @@ def run(eng, R):
              "XYContainer.%s normalises `%s` to `%s` but still uses the raw value (%s): a string axis ends up as an index / dictionary key" % (
                  name, raw, cooked, norm_stmt(common.enclosing_stmt(f.node, uses[0]))[:80] if uses else ""))
 
+    # ---- D-pure: evaluating a cost function writes nothing on the cost-function object (instances are shared between fits: default arguments, user-supplied objects)
+    R.rule("D-pure", "the cost handle of every registry entry and CostFunction.__call__ write no field of the cost-function object (a cost value depends on the arguments only)", 8)
+    CF = p.find_class("CostFunction")
+    seen_h = set()
+    for ctx in [p.find_class(x) for x in FITS]:
+        for ident, cm in registry_cost_models(eng, ctx):
+            hf = cm.get("handle_func")
+            cls = cm.get("class") or (hf.cls if hf is not None else None)
+            if hf is None or (hf.qualname in seen_h):
+                continue
+            seen_h.add(hf.qualname)
+            w = sorted(x for x in eng.eff.trans_writes(hf.cls, hf) if not x.startswith(("args", "kwargs")))
+            w = [x for x in w if "." not in x or x.startswith("self.")]
+            R.ob("D-pure", "%s" % hf.qualname, not w, eng.where(hf),
+                 "%s writes %s while evaluating the cost: the object is shared by every fit that uses this instance (HistFit's default argument, user-supplied cost functions), "
+                 "so values cached from one fit's data leak into another fit's cost" % (hf.qualname, w))
+    cf_call = CF.find_method("__call__")
+    w = sorted(eng.eff.trans_writes(CF, cf_call))
+    R.ob("D-pure", "CostFunction.__call__", not w, eng.where(cf_call), "CostFunction.__call__ writes %s" % w)
+
     # ---- H-proj: formulas that combine the declared sources into the matrices the cost functions receive
     from .formulas import check, check_lambda, get_func as _gf
 
